@@ -275,6 +275,16 @@ func (w *world) verdict() (fp, what string) {
 	for _, r := range w.reqs {
 		k := [2]int64{int64(r.peer), r.height}
 		if failed[k] {
+			hi := int(r.height - w.start)
+			servable := false
+			for p := range w.behav {
+				if hi >= 0 && hi < len(w.behav[p]) && w.behav[p][hi] == bServe {
+					servable = true
+				}
+			}
+			if !servable {
+				return "failed-peer-asked-again:re-download-pass-of-a-height-nobody-serves", fmt.Sprintf("peer %d failed height %d and was asked for it again in the same task (by the re-download pass; no peer serves that height)", r.peer, r.height)
+			}
 			return "failed-peer-asked-again", fmt.Sprintf("peer %d failed height %d and was asked for it again in the same task", r.peer, r.height)
 		}
 		if r.failed {
@@ -287,7 +297,7 @@ func (w *world) verdict() (fp, what string) {
 func main() {
 	r := vx.Start("C35", "model_checking")
 	clog.SetLogLevel("crit")
-	r.Rule = "controlled-scheduler exploration of the instrumented download package: the real handleEventDownloadBlock task over P in-memory peers and a range of H heights; the behaviour of every (peer,height) is enumerated over {serve, refuse stream, malformed reply, read error, wrong height, height unavailable} restricted to assignments where >=1 peer serves each height; per assignment every schedule of the per-height goroutines within the deviation bound. distinct = (assignment class, #requests, #failures) classes"
+	r.Rule = "controlled-scheduler exploration of the instrumented download package: the real handleEventDownloadBlock task over P in-memory peers and a range of H heights; the behaviour of every (peer,height) is enumerated over {serve, refuse stream, malformed reply, read error, wrong height, height unavailable} with at most one height that no peer serves (for the termination clause); per assignment every schedule of the per-height goroutines within the deviation bound. distinct = (assignment class, #requests, #failures) classes"
 	r.Assume = []string{"the libp2p host, peer store, peer-info manager and queue client are in-memory fakes behind the package's own interfaces; stream codecs (protocol.Read/WriteStream) are the real ones", "distinct peer latencies fix the initial sort order", "virtual time for the 400 ms back-off"}
 	r.StateCounter = "tree_nodes"
 	r.DistinctSet = "outcomes"
@@ -315,7 +325,7 @@ func main() {
 			msg := queue.NewMessage(1, "p2p", types.EventFetchBlocks, &types.ReqBlocks{Start: w.start, End: w.start + int64(sh.H) - 1, Pid: pids})
 			p.VerifHandleEventDownloadBlock(msg)
 		}
-		return &vx.Sched{Run: r, Name: name, Body: body, MaxPreempt: sh.bound, MaxSteps: 6000, Budget: 0,
+		return &vx.Sched{Run: r, Name: name, Body: body, MaxPreempt: sh.bound, MaxSteps: 30000, Budget: 0,
 			Check: func(res *vrt.Result) string {
 				w := cur
 				if len(res.Panics) > 0 {
@@ -415,13 +425,19 @@ func main() {
 				}
 			}
 			ok := true
+			unserved := 0
 			for h := 0; h < sh.H; h++ {
 				s := false
 				for p := 0; p < sh.P; p++ {
 					s = s || a[p][h] == bServe
 				}
-				ok = ok && s
+				if !s {
+					unserved++
+				}
 			}
+			// assignments in which a height is served by nobody are explored for the termination clause
+			// (and for the other heights); at most one such height per assignment
+			ok = unserved <= 1
 			// "height unavailable" must be monotone: a peer's announced height is one number
 			for p := 0; p < sh.P; p++ {
 				for h := 0; h+1 < sh.H; h++ {
